@@ -170,6 +170,11 @@ func (g *rig) expect(part, enc string, bytes string, w want, cost int) (vaxis.Ke
 		r.Violation("C09|decode|"+part+"|"+field, cost, detail{Part: part, Input: fmt.Sprintf("%q (%s)", bytes, enc), Got: keyStr(keys[0]), Want: w.String(), Why: "decoded differently from what the encoding specifies"})
 		return keys[0], false
 	}
+	// String() is a function of the key alone: asked twice, and whatever was described before, it says the same
+	if s1, s2 := keys[0].String(), keys[0].String(); s1 != s2 {
+		r.Violation("C09|string|depends-on-history", cost, detail{Part: part, Input: fmt.Sprintf("%q (%s)", bytes, enc), Got: fmt.Sprintf("%q then %q", s1, s2), Why: "String() of one key gave two different descriptions in a row"})
+		return keys[0], false
+	}
 	r.Distinct(explore.Hash("dec", bytes))
 	return keys[0], true
 }
